@@ -29,6 +29,14 @@ R4 gather firing (`GatherStep.run`): element key = tag minus the last `self.dept
    a local boolean are the same atom); which arrival a definition of the re-armed local port serves is decided on the
    CFG (the arm it lies in, or the arrival edges it reaches without being overwritten), so a default assigned before
    the branch and a guard-clause shape with one re-arm per arm are accepted, a stale or wrong port in either is not.
+   Registration of the announced key: every normal path from the size-arrival edges to the next task / loop iteration
+   executes a construct that creates `token_map[<size token's tag>]` -- `setdefault(K, ..)` evaluated unconditionally in
+   its statement / test (not behind `and` / `or` / a conditional expression), a store `token_map[K] = ..`, a read of a
+   defaultdict, a resolved call handing K to a helper that registers its parameter on every normal completion (one
+   level) -- or takes an edge on which `K in token_map` is known to hold (facts; K and the map may sit in locals).
+   A list of length 0 has no element that would create the entry: without it the size-0 gather never fires (or reads a
+   missing key) and the forced gather, which iterates token_map's keys, does not see the list either -- it is silently
+   lost (round-3 seeded change: `K in token_map and len(token_map[K]) == size` for `len(token_map.setdefault(K, []))`).
 R5 stable consumer identity of the port readers (every concrete `Step.run` with a `while` task loop, found through
    the class table: GatherStep, CombinatorStep, LoopCombinatorStep, ScatterStep, LoopOutputStep today).  `Port.get(consumer)`
    registers an unknown consumer as NEW and replays the port's whole token_list to it, so a reader that comes back
@@ -53,6 +61,9 @@ not `for i, t in enumerate(...)`) are analysis errors, not findings.
 
 Left undecided: equality of the values for every length/nesting (follows informally from R1-R4),
 persistence failures, what the element-wise steps in between do.
+Not decided by the registration clause of R4: that the size-0 gather fires *at once* (a registered but unfired empty list is
+still emitted by the forced gather at termination), registration through `update(...)` / `|=` / a helper nested deeper
+than one call, a map that is rebound or loses entries between the registration and the forced gather.
 Not decided by R5: reads made through a helper (`BaseStep._get_inputs` in the ExecuteStep / transformer loops builds the
 consumer id from the keys of the mapping it is given), readers that are not tasks named after their port, the
 executor's own output loop (not a Step), whether two different steps share a consumer id, loop-variance that hides
@@ -67,7 +78,7 @@ import copy
 
 from ..cfg import NORMAL
 from ..facts import atoms, region
-from ..model import dotted, unparse
+from ..model import ancestors, dotted, unparse
 from ..selftest import V
 from ._util_A import (
     branch_succ,
@@ -937,6 +948,145 @@ def _table_rearm(ctx, f, tname, tkey, nid, port_kind, name_kind, is_task_name):
     return True, ""
 
 
+def _evaluated_unconditionally(e: ast.AST) -> bool:
+    """`e` is evaluated whenever its statement / test is: it does not sit behind a short-circuit operator, in an arm of
+    a conditional expression, in a chained comparison's tail, in a lambda or in a comprehension."""
+    child, par = e, getattr(e, "_parent", None)
+    while par is not None and not isinstance(par, ast.stmt):
+        if isinstance(par, ast.BoolOp) and par.values[0] is not child:
+            return False
+        if isinstance(par, ast.IfExp) and par.test is not child:
+            return False
+        if isinstance(par, ast.Compare) and len(par.ops) > 1 and child in par.comparators[1:]:
+            return False
+        if isinstance(par, (ast.Lambda, ast.ListComp, ast.SetComp, ast.DictComp, ast.GeneratorExp)):
+            return False
+        child, par = par, getattr(par, "_parent", None)
+    return True
+
+
+def _self_map(f, e, attr: str, nid=None, recv: str = "self") -> bool:
+    """`self.<attr>` or a local alias of it (`recv`: the name the step object has in f)."""
+    if dotted(e) == f"{recv}.{attr}":
+        return True
+    if isinstance(e, ast.Name):
+        o = single_origin(f, e, nid)
+        return o is not None and dotted(o) == f"{recv}.{attr}"
+    return False
+
+
+def _map_is_defaultdict(prog, cq: str, attr: str) -> bool:
+    """Every assignment `self.<attr> = ...` in the class (MRO) builds a `collections.defaultdict`: a plain read
+    `self.<attr>[k]` then creates the entry."""
+    vals = []
+    for c in prog.mro(cq):
+        cls = prog.classes.get(c)
+        for m in (cls.methods.values() if cls is not None else []):
+            for n in m.body_nodes():
+                if isinstance(n, (ast.Assign, ast.AnnAssign)) and n.value is not None:
+                    tgts = n.targets if isinstance(n, ast.Assign) else [n.target]
+                    if any(dotted(t) == f"self.{attr}" for t in tgts):
+                        vals.append((m, n.value))
+    return bool(vals) and all(isinstance(v, ast.Call) and resolves_to(prog, m, v, "collections.defaultdict") for m, v in vals)
+
+
+def _key_registrations(prog, f, attr: str, is_key, depth: int = 1, autoviv: bool = False, recv: str = "self"):
+    """Where function `f` makes sure that the key recognised by `is_key(expr, cfg node id)` is present in the mapping
+    `self.<attr>`: (CFG nodes that register it whenever they are executed, test edges {(test id, edge kind)} on which it
+    is known to be present).  Registering constructs: `M.setdefault(K, ..)` evaluated unconditionally in its node, a
+    store `M[K] = ..`, a read `M[K]` of a defaultdict, a resolved call that passes K to a function which registers the
+    bound parameter on every normal completion (one level of helper extraction); known present: an edge that implies
+    `K in M` / `K in M.keys()` however the test is spelled."""
+    g = f.cfg
+    nodes, edges = set(), set()
+    for n in g.nodes.values():
+        if n.ast is None:
+            continue
+        if n.kind == "stmt" and isinstance(n.ast, (ast.Assign, ast.AnnAssign)) and getattr(n.ast, "value", None) is not None:
+            tgts = n.ast.targets if isinstance(n.ast, ast.Assign) else [n.ast.target]
+            for tg in tgts:
+                if isinstance(tg, ast.Subscript) and _self_map(f, tg.value, attr, n.id, recv) and is_key(tg.slice, n.id):
+                    nodes.add(n.id)
+        for x in n.walk():
+            if autoviv and isinstance(x, ast.Subscript) and isinstance(x.ctx, ast.Load) and _self_map(f, x.value, attr, n.id, recv) \
+                    and is_key(x.slice, n.id) and _evaluated_unconditionally(x):
+                nodes.add(n.id)
+            if not isinstance(x, ast.Call) or not _evaluated_unconditionally(x):
+                continue
+            sd = method_call(x, "setdefault")
+            if sd is not None and sd.args and _self_map(f, sd.func.value, attr, n.id, recv) and is_key(sd.args[0], n.id):
+                nodes.add(n.id)
+                continue
+            if depth <= 0 or any(isinstance(a, ast.Starred) for a in x.args) or any(k.arg is None for k in x.keywords):
+                continue
+            passed = [(i, None) for i, a in enumerate(x.args) if is_key(a, n.id)] + [(None, k.arg) for k in x.keywords if is_key(k.value, n.id)]
+            if not passed:
+                continue
+            for q in prog.resolve_call(f, x, fanout=False):
+                h = prog.functions.get(q)
+                if h is None or h is f:
+                    continue
+                hp = list(h.params)
+                hrecv = None  # the name of the step object inside the helper
+                if hp and hp[0] in ("self", "cls") and h.cls is not None and isinstance(x.func, ast.Attribute):
+                    if isinstance(x.func.value, ast.Name) and x.func.value.id == recv:
+                        hrecv = hp[0]
+                    hp = hp[1:]
+                else:
+                    for i, a in enumerate(x.args):
+                        if isinstance(a, ast.Name) and a.id == recv and i < len(hp):
+                            hrecv = hp[i]
+                    for k in x.keywords:
+                        if isinstance(k.value, ast.Name) and k.value.id == recv and k.arg in hp:
+                            hrecv = k.arg
+                if hrecv is None:
+                    continue
+                for i, kw in passed:
+                    pname = kw if kw is not None else (hp[i] if i < len(hp) else None)
+                    if pname is None or pname not in h.params:
+                        continue
+                    hn, he = _key_registrations(prog, h, attr, lambda e, _nid, _h=h, _p=pname: is_param(_h, e, _p), depth - 1, autoviv, hrecv)
+                    if (hn or he) and _unregistered_path(h.cfg, [h.cfg.entry], hn, he, [h.cfg.exit]) is None:
+                        nodes.add(n.id)
+        if n.kind == "test":
+            te = _expand_test(f, n)
+            for kind, val in (("t", True), ("f", False)):
+                for a, v in atoms(te, val):
+                    if v and isinstance(a, ast.Compare) and len(a.ops) == 1 and isinstance(a.ops[0], ast.In) and is_key(a.left, n.id):
+                        m = a.comparators[0]
+                        if (mk := method_call(m, "keys")) is not None and not mk.args:
+                            m = mk.func.value
+                        if _self_map(f, m, attr, n.id, recv):
+                            edges.add((n.id, kind))
+    return nodes, edges
+
+
+def _unregistered_path(g, srcs, reg_nodes, reg_edges, targets):
+    """Shortest normal path from one of `srcs` to one of `targets` that neither executes a registering node nor takes
+    an edge on which the key is known to be present; None when there is none."""
+    targets = set(targets)
+    prev = {}
+    queue = []
+    for s in srcs:
+        if s not in reg_nodes and s not in prev:
+            prev[s] = None
+            queue.append(s)
+    while queue:
+        n = queue.pop(0)
+        if n in targets:
+            w = []
+            while n is not None:
+                w.append(n)
+                n = prev[n]
+            return w[::-1]
+        for b, k in g.succ[n]:
+            if k not in NORMAL or (n, k) in reg_edges or b in reg_nodes or b in prev:
+                continue
+            prev[b] = n
+            queue.append(b)
+    return None
+
+
 def r4(ctx):
     p = ctx.prog
     require_members(ctx, GATHER, ["run", "_gather", "get_size_port", "get_input_port", "_get_input_port_name"], ["token_map", "size_map", "depth"])
@@ -1199,6 +1349,27 @@ def r4(ctx):
         ctx.ob("R4", f"run: after `{t.text(50)}` the consumed port is re-armed before the next task is examined", w is None,
                func=f, node=t.ast, instance=f"run:rearm:path:{t.text(80)}", message="a path from the firing test reaches the next task without re-arming the port",
                witness=g.describe(w) if w else [])
+
+    # --- the announced key is registered in token_map on every path through the size arrival
+    # (an empty list has no element that would create the entry: without it the size-0 gather reads a missing key or
+    # never fires, and the forced gather below -- it iterates the keys of token_map -- does not see the list either)
+    def is_size_key(e, nid):
+        o = single_origin(f, e, nid)
+        return isinstance(o, ast.Attribute) and o.attr == "tag" and is_arrived_token(o.value, nid)
+
+    size_edges = [(tid, kind) for tid, kind, v in arrival if v]
+    ctx.require(bool(size_edges), "C01.R4: GatherStep.run: branch test `task_name == '__size__'` not found")
+    reg_nodes, reg_edges = _key_registrations(p, f, "token_map", is_size_key, depth=1, autoviv=_map_is_defaultdict(p, GATHER, "token_map"))
+    ends = set(heads) | {g.exit}
+    for a in ancestors(g.nodes[size_edges[0][0]].ast):
+        if isinstance(a, (ast.For, ast.AsyncFor)):
+            ends |= set(g.ids_of(a))
+    srcs = [s for tid, kind in size_edges for s in branch_succ(g, tid, kind)]
+    w = _unregistered_path(g, srcs, reg_nodes, reg_edges, ends)
+    ctx.ob("R4", "run: the size token's key is registered in token_map on every path through the size arrival", w is None, func=f,
+           node=_skip_site(g, (w or [])[:-1], g.nodes[size_edges[0][0]].ast), instance="run:register-size-key", witness=g.describe(w) if w else [],
+           message=f"`{_skip_text(g, (w or [])[:-1])}` lets a size token be handled without creating token_map[<its tag>] (setdefault / explicit insertion): for an empty list "
+                   f"no element ever creates the entry, so the size-0 gather does not fire and the forced gather over token_map's keys never sees the list (it is silently lost)")
 
     # --- forced gather after the loop
     ctx.ob("R4", "run: non-completed keys are gathered (awaited) after the loop", bool(forced) and all(awaited(c) for c in forced), func=f, node=wl, instance="run:forced:exists",
@@ -1659,6 +1830,21 @@ VARIANTS = [
     V("run: table-driven re-arm only in the size arm (the element port is read once)", SFILE, _R, _HEAD + _ARMS + _REARM,
       "    ports_by_task = {'__size__': size_port, port_name: input_port}\n" + _HEAD
       + _ARMS_NOPORT.replace("                else:\n", "    " + _REARM_TABLE + "\n                else:\n", 1), "R4"),
+    V("run: size arrival tests the count only when the key is already in token_map (seeded: empty list never registered)", SFILE, _R,
+      "if len(self.token_map.setdefault(token.tag, [])) == token.value:",
+      "if token.tag in self.token_map and len(self.token_map[token.tag]) == token.value:", "R4"),
+    V("run: size arrival looks the key up under a membership guard (nested ifs), nothing registers it", SFILE, _R,
+      "                    if len(self.token_map.setdefault(token.tag, [])) == token.value:\n                        await self._gather(token.tag)\n                        keys_completed.add(token.tag)\n",
+      "                    if token.tag in self.token_map:\n                        if len(self.token_map[token.tag]) == token.value:\n"
+      "                            await self._gather(token.tag)\n                            keys_completed.add(token.tag)\n", "R4"),
+    V("run: size arrival counts with .get(key, []) (no entry is created for an empty list)", SFILE, _R,
+      "len(self.token_map.setdefault(token.tag, [])) == token.value", "len(self.token_map.get(token.tag, [])) == token.value", "R4"),
+    V("run: size arrival registers the key only behind a short-circuit", SFILE, _R,
+      "if len(self.token_map.setdefault(token.tag, [])) == token.value:",
+      "if token.value > 0 and len(self.token_map.setdefault(token.tag, [])) == token.value:", "R4"),
+    V("run: size arrival registers another key (the task name) before the guarded count test", SFILE, _R,
+      "if len(self.token_map.setdefault(token.tag, [])) == token.value:",
+      "self.token_map.setdefault(task_name, [])\n                    if token.tag in self.token_map and len(self.token_map[token.tag]) == token.value:", "R4"),
     # ---- R5
     V("run: size/element reader re-armed under the element port's consumer id (round-2 seeded change)", SFILE, _R,
       "port.get(posixpath.join(self.name, task_name)), name=task_name", "port.get(posixpath.join(self.name, port_name)), name=task_name", "R5", control=True),
@@ -1742,6 +1928,19 @@ VARIANTS = [
     V("benign: run builds the port table in the loop from the accessors, entries in the other order, .get lookup", SFILE, _R, _REARM,
       "                ports_by_task = {self._get_input_port_name(): self.get_input_port(), '__size__': self.get_size_port()}\n"
       + _REARM.replace("port.get(", "ports_by_task.get(task.get_name()).get("), None),
+    V("benign: size arrival inserts the key explicitly when it is missing, then reads it", SFILE, _R,
+      "                    if len(self.token_map.setdefault(token.tag, [])) == token.value:",
+      "                    if token.tag not in self.token_map:\n                        self.token_map[token.tag] = []\n"
+      "                    if len(self.token_map[token.tag]) == token.value:", None),
+    V("benign: size arrival registers the key in a statement of its own (alias of the map), membership spelled with .keys()", SFILE, _R,
+      "                    if len(self.token_map.setdefault(token.tag, [])) == token.value:",
+      "                    gathered = self.token_map\n                    size_tag = token.tag\n                    if not size_tag in gathered.keys():\n"
+      "                        gathered.setdefault(size_tag, [])\n                    else:\n                        logger.debug('elements first')\n"
+      "                    if len(self.token_map[token.tag]) == token.value:", None),
+    V("benign: size arrival registers the key through an extracted helper", SFILE, _R,
+      "                    if len(self.token_map.setdefault(token.tag, [])) == token.value:",
+      "                    _c01_register(self, token.tag)\n                    if len(self.token_map[token.tag]) == token.value:", None,
+      append="def _c01_register(step, tag):\n    if tag in step.token_map:\n        return\n    step.token_map[tag] = []\n"),
     V("benign: run logging and reordered independent statements", SFILE, _R,
       "                    self.size_map[token.tag] = token\n                    port = size_port",
       "                    port = size_port\n                    logger.debug('size')\n                    self.size_map[token.tag] = token", None),
